@@ -33,8 +33,22 @@ def gen_cases(rng, tier):
         for k, s in enumerate(batch):
             if "arg" in s:
                 s["arg"] = f"n{k}" + s["arg"][-4:] if "." in s["arg"][-4:] else f"n{k}{s['arg'][:3]}"
+        if rng.random() < 0.3:
+            # a name that is already on the image, given again (a newer version of that file): adding never replaces, the old entry stays
+            olds = []
+            if "spec" in base:
+                olds = [f["name"].lower() + ("." + f["ext"].lower() if f["ext"] else "") for f in base["spec"]["sides"][0]["files"] if f["name"].isalnum() and f["ext"].isalnum() | (f["ext"] == "")]
+            elif "created" in base:
+                olds = [os.path.basename(x["arg"]) for x in base["created"] if "arg" in x and not x["arg"].upper().endswith(",A")]
+            elif "bundled" in base:
+                olds = ["0001.bas", "0011.bas"]
+            if olds:
+                batch.insert(0, {"arg": rng.choice(olds), "content": {"rand": rng.randint(0, 1 << 30), "len": rng.choice([0, 1, 700, 4000])}})
         cases.append(dict(base, batch=batch, verbose=rng.random() < 0.3))
-    return cases, {"random": n}
+    for is_fd in (True, False):
+        cases.append({"created": [{"arg": "notes.txt", "content": {"pat": "41", "len": 600}}, {"arg": "other.dat", "content": {"pat": "42", "len": 3000}}], "is_fd": is_fd, "verbose": False,
+                      "batch": [{"arg": "notes.txt", "content": {"pat": "43", "len": 4000}}, {"arg": "fresh.dat", "content": {"pat": "44", "len": 700}}]})
+    return cases, {"random": n, "fixed": 2}
 
 
 def base_image(case, ctx, cd):
